@@ -1,14 +1,17 @@
 """C10 — Crowsetta conversions preserve times, frequencies, labels and order."""
+import atexit
 import inspect
 import itertools
 import math
+import os
 import re
 import types
 from fractions import Fraction
 
 from ..core import Op
 from ..rat import rat, frac, rat_opt, round_once_eq, tol_eq
-from ..symtrace import Sym
+from ..symtrace import Sym, Untraceable
+from .. import leanio
 from .. import gen_geom
 
 PROPERTY = "C10"
@@ -43,22 +46,33 @@ THEOREMS = [_T + n for n in [
     "C10_roundtrip_holds_sequence",
     # the defects of the pinned commit, as theorems about the pinned cascades
     "C10_pinned_to_tags_differs_iff", "C10_pinned_from_tags_differs_iff",
+    # review: exporter decisions by type tag (the tables of the symbolic export ties), "spans" as min / max,
+    # the recording loaded from the notated path, the round trip through select_by_key
+    "C10_export_span_of", "C10_export_segment_fields", "C10_export_bbox_decision", "C10_export_bbox_refused_iff",
+    "C10_export_spans_segment", "C10_export_spans_bbox", "C10_import_annotation_load_nopath",
+    "C10_import_annotation_load", "C10_roundtrip_label_select", "C10_label_roundtrip_cases",
+    "C10_roundtrip_of_label_roundtrip",
 ]]
 LEVEL_TEXT = ("Lean theorems over the model of the five crowsetta modules hold for all rational inputs and all option "
               "records: the expansion factor is applied exactly once on import (onset/te, sample/samplerate, f*te), import "
-              "keeps order and length, one lemma per rung of both label cascades plus a complete case characterisation, "
-              "export spans the bounds, sample indices are floor(time*samplerate), the Nyquist cap, the cast/raise switches "
-              "and the ignore_errors policy, and export after import is the identity for segments, boxes, sequences and "
-              "annotations without time expansion and with value-only labels.  The model is tied to the source on every "
-              "run: keyword defaults re-extracted from the signatures, the import arithmetic and the box export "
-              "(through crowsetta's own validators) by path-exhaustive symbolic tracing proved equal to the model for all "
-              "inputs, both cascades by exhaustive enumeration of the abstracted option space, numeric behaviour on dyadic "
-              "grids through real crowsetta objects.")
-LEVEL_NOTE = ("Trusted: Lean kernel, symbolic tracer and its stubs (data constructors, compute_bounds, label functions), "
-              "shapely bounds, pydantic parsing, crowsetta's classes (their validators are modelled and traced). "
-              "Unmodelled: binary64 rounding of time/te, sample/(samplerate/te) and time*samplerate off the dyadic grid "
-              "(compared round-once / with tolerance; probed by the free-mode round-trip monitor), ZeroDivisionError for a "
-              "zero samplerate or expansion factor, loading the recording from the notated path.")
+              "keeps order and length (also when the recording is loaded from the notated path), one lemma per rung of both "
+              "label cascades plus a complete case characterisation, export spans the bounds (as minimum / maximum over the "
+              "geometry's points), sample indices are floor(time*samplerate), the Nyquist cap, the cast/raise switches as a "
+              "table over the nine geometry types, the ignore_errors policy, and export after import is the identity for "
+              "segments, boxes, sequences and annotations without time expansion and with value-only labels (value_only or "
+              "select_by_key of the importer's key).  The model is tied to the source on every run: keyword defaults "
+              "re-extracted from the signatures, the import arithmetic, the box export (through crowsetta's own validators) "
+              "and the segment export (seconds and the arguments of int()) for every geometry type x switch combination by "
+              "path-exhaustive symbolic tracing proved equal to the model for all inputs, both cascades by exhaustive "
+              "enumeration of the abstracted option space incl. falsy values, numeric behaviour on dyadic grids through real "
+              "crowsetta objects (floats, ints, numpy scalars) and a real WAV file for the recording=None path.")
+LEVEL_NOTE = ("Trusted: Lean kernel, symbolic tracer and its stubs (data constructors, crowsetta.Segment, compute_bounds, label "
+              "functions, the int()/math.floor hook), shapely bounds, pydantic parsing, crowsetta's classes (BBox validators are "
+              "modelled and traced), Recording.from_file (a parameter of the model; its contract path/time_expansion is "
+              "evaluated on every call). Unmodelled: binary64 rounding of time/te, sample/(samplerate/te) and time*samplerate "
+              "off the dyadic grid (compared round-once / with tolerance; probed by the free-mode round-trip monitor), "
+              "ZeroDivisionError for a zero samplerate or expansion factor, the crowsetta != 4 constructor branch of "
+              "create_crowsetta_segment (not importable with the installed crowsetta).")
 TECHNIQUE = ("Lean 4 proof over model; defaults and symbolic-trace equality obligations regenerated from source; exhaustive "
              "option-space and dyadic-grid correspondence; round-trip monitor on real crowsetta objects")
 RULE = ("exhaustive option tables of label_to_tags / label_from_tag(s); segments, boxes, sequences and annotations on dyadic "
@@ -66,15 +80,18 @@ RULE = ("exhaustive option tables of label_to_tags / label_from_tag(s); segments
         "non-trivial = the implementation returned a value (not an error); distinct = distinct (operation, input)")
 TRUSTED = ["shapely `bounds` inside compute_bounds", "pydantic parsing of floats and the geometry validators (modelled: mkInterval, mkBox)",
            "crowsetta.Segment / BBox / Sequence / Annotation (BBox validators modelled as mkBBox and traced symbolically)",
-           "symbolic tracer stubs: soundevent.data constructors record their arguments, label functions return constants, "
-           "compute_bounds returns a symbolic 4-tuple"]
+           "Recording.from_file / media info of a WAV file (contract: path and time_expansion as requested, evaluated per call)",
+           "symbolic tracer stubs: soundevent.data constructors and crowsetta.Segment record their arguments, label functions "
+           "return constants, compute_bounds returns a symbolic 4-tuple (the interval's own coordinates for a TimeInterval), "
+           "int()/math.floor of a symbolic product is recorded (Python's truncation = pyInt; floor agrees for times >= 0)"]
 ASSUMPTIONS = ["samplerate > 0 and time_expansion > 0 (ZeroDivisionError otherwise, outside the model)",
                "binary64 arithmetic is exact on the dyadic grids used; one correctly rounded operation in round-once mode",
                "ordered-field semantics for the symbolic ties (no rounding)",
                "terms carry only label, name, definition (the harness builds no others)"]
-NOT_COMPARED = ["error messages (only the error class)", "uuids, notes, created_by, the clip of the resulting ClipAnnotation",
-                "sample indices in free mode (arbitrary floats): `int(t * samplerate)` rounds the product, the rational model cannot",
-                "annotation_to_clip_annotation without a recording (reads an audio file)"]
+NOT_COMPARED = ["error messages (only the error class)",
+                "uuids, notes, created_by, clip tags and the clip of the resulting ClipAnnotation (passed in a share of the cases so "
+                "that every branch runs; the property does not pin them)",
+                "sample indices in free mode (arbitrary floats): `int(t * samplerate)` rounds the product, the rational model cannot"]
 
 NS = types.SimpleNamespace
 MAXF = 5_000_000
@@ -191,14 +208,31 @@ def _tags_kwargs(o):
     return kw
 
 
-def _fo(s):
-    return None if s is None else float(frac(s))
+def _fo(s, kind=None):
+    """the number as the caller might hold it: a float (default), a Python int when integral, a numpy scalar"""
+    if s is None:
+        return None
+    q = frac(s)
+    if kind == "int" and q.denominator == 1:
+        return int(q)
+    if kind == "np":
+        import numpy as np
+        return np.float64(float(q))
+    return float(q)
+
+
+def _io(n, kind=None):
+    if n is None or kind != "np":
+        return n
+    import numpy as np
+    return np.int64(n)
 
 
 def _segment(j):
     import crowsetta
-    return crowsetta.Segment(label=j["label"], onset_s=_fo(j["onset_s"]), offset_s=_fo(j["offset_s"]),
-                             onset_sample=j["onset_sample"], offset_sample=j["offset_sample"])
+    k = j.get("num")
+    return crowsetta.Segment(label=j["label"], onset_s=_fo(j["onset_s"], k), offset_s=_fo(j["offset_s"], k),
+                             onset_sample=_io(j["onset_sample"], k), offset_sample=_io(j["offset_sample"], k))
 
 
 def _segment_j(s):
@@ -211,8 +245,9 @@ def _segment_j(s):
 
 def _bbox(j):
     import crowsetta
-    return crowsetta.BBox(onset=_fo(j["onset"]), offset=_fo(j["offset"]), low_freq=_fo(j["low_freq"]),
-                          high_freq=_fo(j["high_freq"]), label=j["label"])
+    k = j.get("num")
+    return crowsetta.BBox(onset=_fo(j["onset"], k), offset=_fo(j["offset"], k), low_freq=_fo(j["low_freq"], k),
+                          high_freq=_fo(j["high_freq"], k), label=j["label"])
 
 
 def _bbox_j(b):
@@ -279,6 +314,20 @@ def _cio():
     return cio
 
 
+def _extras(inp, clip=False):
+    """optional pass-through arguments (notes, created_by, clip tags): exercised so that every branch of the
+    converters runs; the property does not pin them, so they are not compared"""
+    if not inp.get("extras"):
+        return {}
+    from soundevent import data
+    kw = {"created_by": data.User(name="reviewer")}
+    if inp["extras"] != "user":
+        kw["notes"] = [data.Note(message="a note")]
+    if clip:
+        kw["tags"] = [_tag(TAG_B)]
+    return kw
+
+
 def _impl_term_key(inp):
     from soundevent import data
     t = data.term_from_key(inp["key"])
@@ -312,13 +361,13 @@ def _impl_label_from_tags(inp):
 
 def _impl_import_segment(inp):
     a = _cio().segment_to_annotation(_segment(inp["segment"]), _rec(inp["rec"]), adjust_time_expansion=inp["adjust"],
-                                     **_label_kwargs(inp.get("opts")))
+                                     **_extras(inp), **_label_kwargs(inp.get("opts")))
     return {"val": _ann_j(a)}
 
 
 def _impl_import_bbox(inp):
     a = _cio().bbox_to_annotation(_bbox(inp["bbox"]), _rec(inp["rec"]), adjust_time_expansion=inp["adjust"],
-                                  **_label_kwargs(inp.get("opts")))
+                                  **_extras(inp), **_label_kwargs(inp.get("opts")))
     return {"val": _ann_j(a)}
 
 
@@ -342,9 +391,76 @@ def _clip_ann_j(c):
 def _impl_import_annotation(inp):
     rec = _rec(inp["rec"])
     c = _cio().annotation_to_clip_annotation(_crow(inp["crow"]), recording=rec, adjust_time_expansion=inp["adjust"],
-                                             **_label_kwargs(inp.get("opts")))
+                                             **_extras(inp, clip=True), **_label_kwargs(inp.get("opts")))
     assert c.clip.recording == rec
     return {"val": _clip_ann_j(c)}
+
+
+# --- `recording=None`: the recording is loaded from the notated path (a real WAV file written on demand)
+_WAVS = {}
+WAV = "@wav"        # placeholder of the notated path in inputs (the real path differs from run to run)
+
+
+def _wav(sr):
+    """an 8-frame mono 16-bit WAV file with the given sample rate, in this run's scratch directory"""
+    import wave
+    sr = int(sr)
+    if sr not in _WAVS:
+        path = os.path.join(leanio.run_dir(), f"c10_{sr}.wav")
+        with wave.open(path, "wb") as w:
+            w.setnchannels(1)
+            w.setsampwidth(2)
+            w.setframerate(sr)
+            w.writeframes(b"\0\0" * 8)
+        _WAVS[sr] = path
+        atexit.register(_rm, path)
+    return _WAVS[sr]
+
+
+def _rm(path):
+    try:
+        os.remove(path)
+        os.rmdir(os.path.dirname(path))
+    except OSError:
+        pass
+
+
+def _load_kwargs(inp):
+    return None if inp.get("te") is None else {"time_expansion": float(frac(inp["te"]))}
+
+
+def _impl_import_annotation_load(inp):
+    crow = dict(inp["crow"])
+    if crow["notated_path"] == WAV:
+        crow["notated_path"] = _wav(frac(inp["file_sr"]))
+    kw = {}
+    if _load_kwargs(inp) is not None:
+        kw["recording_kwargs"] = _load_kwargs(inp)
+    c = _cio().annotation_to_clip_annotation(_crow(crow), adjust_time_expansion=inp["adjust"], **kw,
+                                             **_extras(inp, clip=True), **_label_kwargs(inp.get("opts")))
+    return {"val": _clip_ann_j(c)}
+
+
+def _loaded(inp):
+    """what `Recording.from_file` (outside the model) returns for the notated path with the given keyword arguments"""
+    from soundevent import data
+    path = _wav(frac(inp["file_sr"]))
+    rec = data.Recording.from_file(path, **(_load_kwargs(inp) or {}))
+    return rec, path
+
+
+def _to_model_load(inp):
+    rec, path = _loaded(inp)
+    return {**inp, "loaded": {"samplerate": rat(rec.samplerate), "te": rat(rec.time_expansion),
+                              "path": WAV if str(rec.path) == path else str(rec.path)}}
+
+
+def _holds_load(ctx, inp, io):
+    rec, path = _loaded(inp)
+    te = 1.0 if inp.get("te") is None else float(frac(inp["te"]))
+    ctx.contract("Recording.from_file keeps path and time expansion", str(rec.path) == path and rec.time_expansion == te,
+                 inp, {"path": str(rec.path), "te": rec.time_expansion})
+    return None
 
 
 def _sr_rec(inp):
@@ -551,8 +667,17 @@ def _rt_domain(inp):
     if o.get("tag_fn") is not None or o.get("tag_mapping") is not None:
         return False
     e = inp.get("export_opts") or {}
-    if e.get("seq_label_fn") is not None or e.get("label_fn") is not None or e.get("label_mapping") is not None \
-            or e.get("select_by_key") is not None or e.get("value_only") is not True:
+    if e.get("seq_label_fn") is not None or e.get("label_fn") is not None or e.get("label_mapping") is not None:
+        return False
+    if e.get("select_by_key") is not None:
+        # value-only labels through select_by_key of the importer's key (C10_label_roundtrip_cases, te = 1)
+        if o.get("term_mapping") is not None or o.get("key_mapping") is not None or frac(inp["rec"]["te"]) != 1:
+            return False
+        k = o["term"]["label"] if o.get("term") is not None else (
+            o["key"] if o.get("key") is not None else (o["fallback"] if o.get("fallback") is not None else "crowsetta"))
+        if e["select_by_key"] != k:
+            return False
+    elif e.get("value_only") is not True:
         return False
     empties = o.get("empty_labels") or ["__empty__"]
     if empties != [e.get("empty_label") or "__empty__"]:
@@ -693,6 +818,8 @@ OPS = {
                          compare=_num_compare(round_once_eq), mode="round-once"),
     "import_sequence": Op("import_sequence", _impl_import_sequence),
     "import_annotation": Op("import_annotation", _impl_import_annotation),
+    "import_annotation_load": Op("import_annotation_load", _impl_import_annotation_load, to_model=_to_model_load,
+                                 holds=_holds_load),
     "export_segment": Op("export_segment", _impl_export_segment),
     "export_bbox": Op("export_bbox", _impl_export_bbox),
     "export_sequence": Op("export_sequence", _impl_export_sequence),
@@ -716,14 +843,15 @@ def _defaults_obligation(ctx):
         return {k: v.default for k, v in inspect.signature(f).parameters.items() if v.default is not inspect.Parameter.empty}
     lt, lf, lfs = d(cio.label_to_tags), d(cio.label_from_tag), d(cio.label_from_tags)
     from soundevent.io.crowsetta import labels
-    if getattr(labels, "EMPTY_LABEL", None) is None:
-        ctx.fail("obligation", "keyword_defaults", detail="labels.EMPTY_LABEL is gone", extra={"op": "defaults"})
-        return
+    # the empty label is what the signatures say; the module constant (a private name) is compared when it exists
+    empty_label = getattr(labels, "EMPTY_LABEL", None)
+    if empty_label is None:
+        empty_label = lfs.get("empty_label")
     adj = {f.__name__: d(f).get("adjust_time_expansion") for f in
            (cio.segment_to_annotation, cio.bbox_to_annotation, cio.sequence_to_annotations, cio.annotation_to_clip_annotation)}
     empties = list(lt.get("empty_labels") or [])
     ext = {
-        "fallback": lt.get("fallback"), "emptyLabel": labels.EMPTY_LABEL,
+        "fallback": lt.get("fallback"), "emptyLabel": empty_label,
         "tagSeparator": lf.get("separator"), "joinSeparator": lfs.get("separator"), "valueOnly": lf.get("value_only"),
         "segCast": d(cio.segment_from_annotation).get("cast_to_segment"),
         "seqCast": d(cio.sequence_from_annotations).get("cast_to_segment"),
@@ -734,7 +862,7 @@ def _defaults_obligation(ctx):
         "annCast": d(cio.annotation_from_clip_annotation).get("cast_geometry"),
         "adjust": all(v is True for v in adj.values()),
     }
-    consistent = (empties == [labels.EMPTY_LABEL] and lfs.get("empty_label") == labels.EMPTY_LABEL
+    consistent = (empties == [empty_label] and lfs.get("empty_label") == empty_label
                   and all(d(f).get(k) is None for f, ks in ((cio.label_to_tags, ("tag_fn", "tag_mapping", "term_mapping", "key_mapping", "key", "term")),
                                                            (cio.label_from_tag, ("label_fn", "label_mapping")),
                                                            (cio.label_from_tags, ("seq_label_fn", "select_by_key", "index"))) for k in ks))
@@ -755,20 +883,25 @@ def _defaults_obligation(ctx):
 
 # ====================================================================== tie 1b: symbolic traces
 class _G:
+    """geometry stub: coordinates (symbolic) and the type tag"""
+    TYPE = None
+
     def __init__(self, coordinates, type=None):
         self.coordinates = coordinates
-        self.type = type
+        self.type = type or self.TYPE
+
+
+# one stub class per geometry type, so that both `geometry.type == "…"` and `isinstance(geometry, data.…)` work
+_GEOM_STUBS = {t: type("_" + t, (_G,), {"TYPE": t}) for t in gen_geom.TYPES}
+
+
+def _geom_stub(ty, coordinates):
+    return _GEOM_STUBS[ty](coordinates)
 
 
 class _StubData:
     """stands in for `soundevent.data` inside the traced converters: constructors record their arguments"""
-    @staticmethod
-    def TimeInterval(coordinates):
-        return _G(coordinates, "TimeInterval")
-
-    @staticmethod
-    def BoundingBox(coordinates):
-        return _G(coordinates, "BoundingBox")
+    Geometry = _G
 
     @staticmethod
     def SoundEvent(**kw):
@@ -779,8 +912,55 @@ class _StubData:
         return NS(**kw)
 
 
+for _t, _c in _GEOM_STUBS.items():
+    setattr(_StubData, _t, _c)
+
+
+class _StubSegment:
+    """stands in for `crowsetta.Segment` inside the traced exporter (its converters call `float()`): records
+    the arguments of either construction path"""
+
+    def __init__(self, label=None, onset_s=None, offset_s=None, onset_sample=None, offset_sample=None):
+        self.label, self.onset_s, self.offset_s = label, onset_s, offset_s
+        self.onset_sample, self.offset_sample = onset_sample, offset_sample
+
+    @classmethod
+    def from_keyword(cls, label, onset_s=None, offset_s=None, onset_sample=None, offset_sample=None):
+        return cls(label=label, onset_s=onset_s, offset_s=offset_s, onset_sample=onset_sample, offset_sample=offset_sample)
+
+
+class _IntArgs:
+    """while active, `int(<symbolic number>)` (also `math.floor` / `math.trunc`) records its argument and returns a
+    sentinel integer, so that a traced result field can be recognised as `int(<term>)`.  Python's truncation itself
+    is `pyInt` in the model; `math.floor` is accepted as well because the property pins floor(time * samplerate) and
+    the two agree for the non-negative times of valid geometries (`C10_export_samples_floor`)"""
+    BASE = 7_000_001
+
+    def __enter__(self):
+        self.args = []
+        Sym.int_hook = self._hook
+        return self
+
+    def _hook(self, sym):
+        self.args.append(sym)
+        return self.BASE + len(self.args) - 1
+
+    def __exit__(self, *exc):
+        Sym.int_hook = None
+        return False
+
+    def arg_of(self, v):
+        if type(v) is int and self.BASE <= v < self.BASE + len(self.args):
+            return self.args[v - self.BASE]
+        raise Untraceable("a sample index is not int(<time term>): %r" % (v,))
+
+
 def _opt(name, present):
     return f"(some {name})" if present else "none"
+
+
+def _b(v):
+    return "true" if v else "false"
 
 
 _MISSING = object()
@@ -859,7 +1039,7 @@ def _symbolic_ties(ctx):
     V = ["s", "lo", "e", "hi", "sr"]
     s, lo, e, hi, sr = [Sym.var(v) for v in V]
     with _Patched(boxmod, compute_bounds=lambda g: (s, lo, e, hi), label_from_tags=lambda tags, **kw: "x"):
-        obj = NS(sound_event=NS(geometry=_G([s, lo, e, hi], "BoundingBox"), recording=NS(samplerate=sr)), tags=[])
+        obj = NS(sound_event=NS(geometry=_geom_stub("BoundingBox", [s, lo, e, hi]), recording=NS(samplerate=sr)), tags=[])
 
         def thunk():
             b = boxmod.bbox_from_annotation(obj)
@@ -868,6 +1048,45 @@ def _symbolic_ties(ctx):
                     "(match SE.Crowsetta.mkBBox s e lo (min hi (sr / 2)) \"x\" with\n"
                     "      | .ok b => some (b.onset, b.offset, b.lowFreq, b.highFreq)\n      | .error _ => none)",
                     tactic=f"unfold ext_box_export SE.Crowsetta.mkBBox\n  {_CLOSE}", meta={"op": "export_bbox"})
+        # every geometry type x cast_to_bbox x raise_on_time_geometries: the switch table `boxRefused` + `boxOf`
+        for ty, cast, rt in itertools.product(gen_geom.TYPES, (True, False), (True, False)):
+            name = f"ext_box_export_{ty}_{'c' if cast else 'n'}{'r' if rt else 'k'}"
+            obj = NS(sound_event=NS(geometry=_geom_stub(ty, [s, lo, e, hi]), recording=NS(samplerate=sr)), tags=[])
+
+            def thunk(obj=obj, cast=cast, rt=rt):
+                b = boxmod.bbox_from_annotation(obj, cast_to_bbox=cast, raise_on_time_geometries=rt)
+                return (b.onset, b.offset, b.low_freq, b.high_freq)
+            ctx.sym_tie(name, thunk, V, "Rat × Rat × Rat × Rat",
+                        f"(match SE.Crowsetta.boxOf \"{ty}\" {_b(cast)} {_b(rt)} ⟨s, lo, e, hi⟩ sr \"x\" with\n"
+                        "      | .ok b => some (b.onset, b.offset, b.lowFreq, b.highFreq)\n      | .error _ => none)",
+                        tactic=f"unfold {name} SE.Crowsetta.boxOf SE.Crowsetta.boxRefused SE.Crowsetta.mkBBox\n  {_CLOSE}",
+                        meta={"op": "export_bbox"})
+    # --- segment_from_annotation: the time span by type tag x cast_to_segment, seconds = the span itself, sample
+    #     fields = int(span * samplerate) (crowsetta.Segment stubbed: its converters call float())
+    V = ["s", "e", "st", "lo", "en", "hi", "sr"]
+    s, e, st, lo, en, hi, sr = [Sym.var(v) for v in V]
+    def bounds_stub(g):
+        # bounds of a (validated, start <= end) TimeInterval are its own coordinates over the whole band, so a
+        # converter that takes every geometry through compute_bounds traces to the same span
+        if getattr(g, "type", None) == "TimeInterval" and len(g.coordinates) == 2:
+            return (g.coordinates[0], 0, g.coordinates[1], MAXF)
+        return (st, lo, en, hi)
+    with _Patched(segmod, data=_StubData, compute_bounds=bounds_stub, label_from_tags=lambda tags, **kw: "x",
+                  crowsetta=NS(Segment=_StubSegment, __version__=getattr(getattr(segmod, "crowsetta", None), "__version__", "4")),
+                  Segment=_StubSegment):      # either way the module may refer to the class
+        for ty, cast in itertools.product(gen_geom.TYPES, (True, False)):
+            name = f"ext_seg_export_{ty}_{'c' if cast else 'n'}"
+            coords = [s, e] if ty == "TimeInterval" else [st, lo, en, hi]
+            obj = NS(sound_event=NS(geometry=_geom_stub(ty, coords), recording=NS(samplerate=sr)), tags=[])
+
+            def thunk(obj=obj, cast=cast):
+                with _IntArgs() as ia:
+                    g = segmod.segment_from_annotation(obj, cast_to_segment=cast)
+                    return (g.onset_s, g.offset_s, ia.arg_of(g.onset_sample), ia.arg_of(g.offset_sample))
+            ctx.sym_tie(name, thunk, V, "Rat × Rat × Rat × Rat",
+                        f"(SE.Crowsetta.spanOf \"{ty}\" {_b(cast)} s e ⟨st, lo, en, hi⟩).map (fun p => SE.Crowsetta.segFields sr p.1 p.2)",
+                        tactic=f"unfold {name} SE.Crowsetta.spanOf SE.Crowsetta.segFields\n  {_CLOSE}",
+                        meta={"op": "export_segment"})
 
 
 # ====================================================================== generators
@@ -903,6 +1122,33 @@ def enum_label_to_tags(full=True):
                 continue
             yield {"label": label, "opts": {"tag_fn": fn, "tag_mapping": tm, "term_mapping": trm, "key_mapping": km,
                                             "key": key, "term": term, "fallback": fb, "empty_labels": empties}}
+
+
+def enum_label_to_tags_falsy():
+    """falsy-but-meaningful option values: empty key / fallback / label, an empty `empty_labels`, empty mappings"""
+    for label, empties in [(LAB, None), (LAB, []), ("", []), ("", [""]), ("__empty__", []), ("0", None),
+                           (" __empty__ ", None), ("__EMPTY__", None), ("NA ", ["NA"])]:      # near misses of an empty label
+        tag_maps = [None, [], [[label, {"many": []}]]]
+        term_maps = [None, []]
+        key_maps = [None, [], [["other", "kx"]], [[label, ""]]]
+        for tm, trm, km, key, term, fb in itertools.product(tag_maps, term_maps, key_maps, [None, "", "explicit"],
+                                                            [None, TERM_X], [None, "", "fb"]):
+            yield {"label": label, "opts": {"tag_fn": None, "tag_mapping": tm, "term_mapping": trm, "key_mapping": km,
+                                            "key": key, "term": term, "fallback": fb, "empty_labels": empties}}
+
+
+TAG_E = ktag("", "ve")          # a tag whose key is the empty string
+TAG_F = ktag("k1", "")          # a tag whose value is the empty string
+TAG_G = ktag("K1", "upper")     # keys are compared exactly: "K1" is not "k1"
+
+
+def enum_label_from_tags_falsy():
+    for tags in ([], [TAG_F], [TAG_A, TAG_E, TAG_F], [TAG_E, TAG_A], [TAG_G, TAG_E, TAG_A]):
+        t0 = tags[-1] if tags else TAG_A
+        for sel, idx, mp, vo, sep, el in itertools.product([None, "", "k1", "K1", " k1"], [None, 0, -1], [None, [], [[t0, ""]]],
+                                                           [None, True, False], [None, ""], [None, ""]):
+            yield {"tags": tags, "opts": {"seq_label_fn": None, "select_by_key": sel, "index": idx, "label_fn": None,
+                                          "label_mapping": mp, "value_only": vo, "separator": sep, "empty_label": el}}
 
 
 def enum_label_from_tag():
@@ -967,6 +1213,9 @@ def gen_segment(rng, k=3, tmax=64, valid=0.85, seconds=None):
         a, b = min(a, b), max(a, b)
     elif r < valid + 0.05:
         a = -a
+    if rng.random() < 0.06:
+        a = Fraction(0)                     # onset 0.0: falsy but meaningful
+        b = abs(b)
     if rng.random() < 0.1:
         b = a
     na, nb = sorted([rng.randint(0, 1 << 16), rng.randint(0, 1 << 16)])
@@ -988,6 +1237,8 @@ def gen_segment(rng, k=3, tmax=64, valid=0.85, seconds=None):
         seg["onset_sample"] = None
         if rng.random() < 0.5:
             seg["offset_s"] = None
+    if rng.random() < 0.15:
+        seg["num"] = rng.choice(["int", "np"])      # Python ints / numpy scalars instead of floats
     return seg
 
 
@@ -1008,20 +1259,27 @@ def gen_bbox(rng, k=3, tmax=64, fmax=64):
         a = Fraction(0)
     if rng.random() < 0.1:
         lo = Fraction(0)
-    return {"onset": rat(a), "offset": rat(b), "low_freq": rat(lo), "high_freq": rat(hi), "label": rng.choice(LABELS)}
+    box = {"onset": rat(a), "offset": rat(b), "low_freq": rat(lo), "high_freq": rat(hi), "label": rng.choice(LABELS)}
+    if rng.random() < 0.2:
+        box["num"] = rng.choice(["int", "np"])       # crowsetta.BBox has no converters: ints / numpy scalars reach the converter
+    return box
+
+
+def _extra(rng):
+    return rng.choice([None, None, None, "user", "all"])
 
 
 def gen_import_segment(rng, n, tes, srs, seconds=None):
     for _ in range(n):
         yield {"segment": gen_segment(rng, seconds=seconds), "rec": {"samplerate": rng.choice(srs), "te": rng.choice(tes)},
-               "adjust": rng.random() < 0.7, "opts": rng.choice(LABEL_OPTS)}
+               "adjust": rng.random() < 0.7, "opts": rng.choice(LABEL_OPTS), "extras": _extra(rng)}
 
 
 def gen_import_bbox(rng, n, tes):
     for _ in range(n):
         fmax = rng.choice([64, 64, 1 << 20, MAXF])
         yield {"bbox": gen_bbox(rng, fmax=fmax), "rec": {"samplerate": rng.choice(POW2_SR + INT_SR), "te": rng.choice(tes)},
-               "adjust": rng.random() < 0.7, "opts": rng.choice(LABEL_OPTS)}
+               "adjust": rng.random() < 0.7, "opts": rng.choice(LABEL_OPTS), "extras": _extra(rng)}
 
 
 TAGS_OPTS = [None, None, {"value_only": True}, {"value_only": False}, {"select_by_key": "k1"}, {"select_by_key": "k1", "value_only": True},
@@ -1106,7 +1364,16 @@ def gen_crow(rng, kind=None, seconds=None, fmax=64):
 def gen_import_annotation(rng, n):
     for _ in range(n):
         yield {"crow": gen_crow(rng), "rec": {"samplerate": rng.choice(POW2_SR), "te": rng.choice(POW2_TE), "path": "rec.wav"},
-               "adjust": rng.random() < 0.7, "opts": rng.choice(LABEL_OPTS)}
+               "adjust": rng.random() < 0.7, "opts": rng.choice(LABEL_OPTS), "extras": _extra(rng)}
+
+
+def gen_import_annotation_load(rng, n):
+    """`recording=None`: a real WAV file at the notated path; the expansion factor travels in `recording_kwargs`"""
+    for _ in range(n):
+        crow = gen_crow(rng, rng.choice(["bboxes", "seq"]))
+        crow["notated_path"] = WAV if rng.random() < 0.9 else None
+        yield {"crow": crow, "file_sr": rng.choice(["8", "256", "8192"]), "te": rng.choice([None, "1", "2", "4", "1/2"]),
+               "adjust": rng.random() < 0.7, "opts": rng.choice(LABEL_OPTS), "extras": _extra(rng)}
 
 
 RT_IMPORT = [None, None, {"key": "species"}, {"term": TERM_X}, {"fallback": "fb"}, {"term_mapping": [["a", TERM_Y]]},
@@ -1123,6 +1390,9 @@ def _rt_opts(rng):
     # a small share outside the theorem's domain (compared with the model, not monitored)
     if rng.random() < 0.12:
         eo = rng.choice([{"value_only": False}, {}, {"select_by_key": "crowsetta"}, {"select_by_key": "crowsetta", "value_only": True}])
+    elif rng.random() < 0.12 and not (io and (io.get("term_mapping") or io.get("key_mapping"))):
+        k = (io or {}).get("term", {}).get("label") or (io or {}).get("key") or (io or {}).get("fallback") or "crowsetta"
+        eo = {"select_by_key": k, **rng.choice([{}, {"value_only": False}, {"index": 1}]), **{x: y for x, y in eo.items() if x == "empty_label"}}
     if rng.random() < 0.05:
         io = rng.choice(LABEL_OPTS)
     return io, eo
@@ -1242,6 +1512,18 @@ def _stage_cascades(ctx):
                                                  "x label_fn x label_mapping x value_only(absent, True, False) x separator x empty_label"
                                                  + ("" if full else " (thinned in the quick tier)"))
     ctx.run_cases(OPS["label_from_tags"], [{"tags": t, "opts": o, "as_tuple": True} for t in TAG_LISTS for o in TAGS_OPTS])
+    c = _count(ctx, "enum:label_to_tags:falsy", enum_label_to_tags_falsy())
+    ctx.run_cases(OPS["label_to_tags"], c)
+    ctx.exhaustive["label_to_tags falsy values"] = (f"{len(c)} combinations: label/empty_labels incl. '' and [] x tag_mapping(absent, {{}}, hit []) "
+                                                    "x term_mapping(absent, {}) x key_mapping(absent, {}, miss, hit '') x key(absent, '', given) "
+                                                    "x term x fallback(absent, '', given)")
+    c = _count(ctx, "enum:label_from_tags:falsy", enum_label_from_tags_falsy())
+    ctx.run_cases(OPS["label_from_tags"], c)
+    ctx.exhaustive["label_from_tags falsy values"] = (f"{len(c)} combinations: tags with an empty key / empty value x select_by_key(absent, '', hit) "
+                                                      "x index(absent, 0, -1) x label_mapping(absent, {}, hit '') x value_only x separator '' x empty_label ''")
+    ctx.run_cases(OPS["label_from_tag"], [{"tag": t, "opts": {"label_mapping": mp, "value_only": vo}, "separator": sep}
+                                          for t in (TAG_E, TAG_F) for mp in (None, [], [[t, ""]]) for vo in (None, True, False)
+                                          for sep in (None, "")])
 
 
 def _stage_import(ctx):
@@ -1261,6 +1543,8 @@ def _stage_import(ctx):
          "rec": {"samplerate": rng.choice(POW2_SR), "te": rng.choice(POW2_TE)}, "adjust": rng.random() < 0.7,
          "opts": rng.choice(LABEL_OPTS)} for _ in range(ctx.budget(800, 4000))])
     ctx.run_cases(OPS["import_annotation"], gen_import_annotation(rng, ctx.budget(800, 4000)))
+    ctx.run_cases(OPS["import_annotation_load"], _count(ctx, "import_annotation:recording loaded from the notated path",
+                                                       gen_import_annotation_load(rng, ctx.budget(300, 1500))))
 
 
 def _stage_export(ctx, defaults):
@@ -1308,6 +1592,12 @@ def search(ctx, failures):
     if ops & {"import_segment", "import_segment_r1", "import_segment_tol", "import_sequence"} or not ops & set(OPS):
         ctx.run_cases(OPS["import_segment"], gen_import_segment(rng, 6000, POW2_TE, POW2_SR))
         ctx.run_cases(OPS["import_segment_r1"], gen_import_segment(rng, 3000, DEC_TE + POW2_TE, INT_SR, seconds="seconds"))
+    if ops & {"import_annotation", "import_annotation_load"}:
+        ctx.run_cases(OPS["import_annotation"], gen_import_annotation(rng, 2000))
+        ctx.run_cases(OPS["import_annotation_load"], gen_import_annotation_load(rng, 600))
+    if ops & {"export_segment", "export_sequence"}:
+        ctx.run_cases(OPS["export_segment"], gen_export_segment(rng, 60, defaults))
+        ctx.run_cases(OPS["export_sequence"], gen_export_sequence(rng, 2000, defaults))
     if ops & {"import_bbox", "import_bbox_r1", "import_annotation"} or not ops & set(OPS):
         ctx.run_cases(OPS["import_bbox"], gen_import_bbox(rng, 6000, POW2_TE))
         ctx.run_cases(OPS["import_bbox_r1"], gen_import_bbox(rng, 3000, DEC_TE))
